@@ -121,7 +121,7 @@ Section Handlers.
 
   (* histories *)
   Definition acknowledged (rq : request) (e : env) (st : state) : bool :=
-    match fst (ingest rq e st) with Status 200 => true | _ => false end.
+    match fst (ingest rq e st) with Status c => c =? 200 | Panic _ => false end.
 
   Fixpoint run (l : list (request * env)) (st : state) : list outcome * state :=
     match l with
